@@ -80,3 +80,62 @@ static FNS: [(fn(char) -> bool, &str); 20] = [
         "XID_CONTINUE",
     ),
 ];
+
+// Verification hook (feature `verif_hooks`): runs `generate_char_fn_ranges` on predicates described
+// by boundary lists. Does nothing unless LEXGEN_VERIF_OPS is set.
+#[cfg(all(test, feature = "verif_hooks"))]
+mod verif_hooks {
+    use std::cell::RefCell;
+    use std::fmt::Write as _;
+
+    thread_local! {
+        // Sorted code points at which the predicate flips; it is false below the first one.
+        static BOUNDARIES: RefCell<Vec<u32>> = const { RefCell::new(Vec::new()) };
+    }
+
+    fn boundary_pred(c: char) -> bool {
+        BOUNDARIES.with(|b| {
+            let b = b.borrow();
+            let n = b.iter().filter(|x| **x <= c as u32).count();
+            n % 2 == 1
+        })
+    }
+
+    #[test]
+    fn verif_component_server() {
+        let ops = match std::env::var_os("LEXGEN_VERIF_OPS") {
+            None => return,
+            Some(ops) => ops,
+        };
+        let out_path = std::env::var_os("LEXGEN_VERIF_OUT").expect("LEXGEN_VERIF_OUT");
+        let input = std::fs::read_to_string(ops).unwrap();
+        let mut out = String::new();
+        for line in input.lines() {
+            let toks: Vec<&str> = line.split_whitespace().collect();
+            if toks.is_empty() {
+                continue;
+            }
+            let ranges = match toks[0] {
+                "gen" => {
+                    let bs: Vec<u32> = toks[1..].iter().map(|t| t.parse().unwrap()).collect();
+                    BOUNDARIES.with(|b| *b.borrow_mut() = bs);
+                    super::generate_char_fn_ranges(boundary_pred)
+                }
+                "real" => {
+                    let (f, _) = super::FNS
+                        .iter()
+                        .find(|(_, name)| *name == toks[1])
+                        .expect("unknown predicate name");
+                    super::generate_char_fn_ranges(*f)
+                }
+                other => panic!("unknown op {}", other),
+            };
+            write!(out, "{}", toks[0]).unwrap();
+            for (s, e) in ranges {
+                write!(out, " {} {}", s, e).unwrap();
+            }
+            out.push('\n');
+        }
+        std::fs::write(out_path, out).unwrap();
+    }
+}
